@@ -6,6 +6,7 @@ import (
 	"fmt"
 	"sync"
 	"time"
+	wdog "verifharness/wd"
 
 	"github.com/goatcms/goatcore/app"
 	"github.com/goatcms/goatcore/app/scope"
@@ -147,7 +148,7 @@ func RunSignalScript(kind string, progs []string) (*SignalResult, error) {
 	go func() { wg.Wait(); close(done) }()
 	select {
 	case <-done:
-	case <-time.After(10 * time.Second):
+	case <-wdog.After(10 * time.Second):
 		res.Panics = append(res.Panics, "callers did not return within 10 s")
 	}
 	mu.Lock()
@@ -228,7 +229,7 @@ func RunChildOfDone(how string, racers int) (panics []string, parentClosed bool)
 	select {
 	case <-closed:
 		parentClosed = true
-	case <-time.After(10 * time.Second):
+	case <-wdog.After(10 * time.Second):
 	}
 	return
 }
